@@ -1140,6 +1140,15 @@ func (e *SpecEnv) call(n *SCall, hint types.Type) Val {
 		c.decl("ax:txt", "(assert (forall ((a!t Str) (b!t Str)) (! (= (streq a!t b!t) (= (txt a!t) (txt b!t))) :pattern ((txt a!t) (txt b!t)))))")
 		arg := fmt.Sprintf("(ite (= (slen %s) %s) %s (mkstr (sarr %s) (soff %s) (slen %s) 0))", a.S, c.idxLit(0), c.strConst(""), a.S, a.S, a.S)
 		return Val{T: textType, S: fmt.Sprintf("(txt %s)", arg)}
+	case "strsfx": // strsfx(s, t): string s is the suffix t[len(t)-len(s):] of t as a VIEW (same bytes in memory)
+		a := e.eval(n.Args[0], nil)
+		b := e.eval(n.Args[1], nil)
+		if !isString(a.T) || !isString(b.T) {
+			sfail("strsfx takes two strings")
+		}
+		return Val{T: types.Typ[types.Bool], S: fmt.Sprintf("(and (= (sarr %s) (sarr %s)) %s (= (soff %s) %s))", a.S, b.S,
+			c.idxLe(fmt.Sprintf("(slen %s)", a.S), fmt.Sprintf("(slen %s)", b.S)),
+			a.S, c.idxAdd(fmt.Sprintf("(soff %s)", b.S), c.idxSub(fmt.Sprintf("(slen %s)", b.S), fmt.Sprintf("(slen %s)", a.S))))}
 	case "aliases": // base reference of the mutable byte array a string value is a view of (0: none)
 		v := e.eval(n.Args[0], nil)
 		if !isString(v.T) {
@@ -1298,6 +1307,12 @@ func (e *SpecEnv) callPure(pf *PureFunc, args []SExpr, hint types.Type) Val {
 			}
 			// identity of the pointed-to location (addresses of globals / locals are opaque non-nil constants)
 			as = append(as, e.f.ptrTerm(a))
+			continue
+		}
+		if a.T != nil && isString(a.T) && strings.Contains(a.S, "!q") && !strings.ContainsAny(a.S, " ()") {
+			// a quantifier-bound string variable (axioms): passed as is, so that the
+			// application can serve as a trigger
+			as = append(as, a.S)
 			continue
 		}
 		if a.T != nil && isString(a.T) {
